@@ -62,7 +62,7 @@ def run(R):
                     R.encode(f'{SRC}:{f.lineno} {n.name}.{f.name}', ast.get_source_segment(text, f))
     D = [0, 1, 2]
     if R.tier == 'quick':
-        pct = 170
+        pct = 240
         groups = groups_for(2, 2, 4, {'a1': [0, 1, 2], 'd0': D})
         R.bounds = {'tasks': 2, 'capacity': 2, 'weights': '1..2 symbolic', 'steps': 'k=4',
                     'drain': '0 / one loop iteration / until quiescent, symbolic per step (last step drains)'}
@@ -70,7 +70,7 @@ def run(R):
         pct = 1300
         groups = (groups_for(2, 2, 4, {'a1': [0, 1, 2], 'd0': D})
                   + groups_for(2, 2, 5, {'a1': [0, 1, 2], 'd0': D, 'd1': D, 'w0': [1, 2]})
-                  + groups_for(3, 3, 4, {'a1': [0, 1, 2], 'd0': D, 'd1': D, 'w0': [1, 2, 3]}))
+                  + groups_for(3, 3, 4, {'a1': [0, 1, 2], 'd0': D, 'w0': [1, 2, 3]}))
         R.bounds = {'shapes': '(2 tasks, capacity 2, k=4), (2 tasks, capacity 2, k=5), (3 tasks, capacity 3, k=4)',
                     'weights': '1..capacity symbolic',
                     'drain': '0 / one loop iteration / until quiescent, symbolic per step (last step drains)'}
